@@ -58,6 +58,13 @@ var costFamilies = []costFamily{
 	{"lone percent signs in the query", func(n int) (string, string) { return "", "http://h/?" + rep("%", n) }},
 	{"lone percent signs in the fragment", func(n int) (string, string) { return "", "http://h/#" + rep("%&", n) }},
 	{"lone percent signs in an opaque path", func(n int) (string, string) { return "", "sc:" + rep("%", n) }},
+	{"invalid UTF-8 run in an opaque host", func(n int) (string, string) { return "", "sc://" + rep("\xff", n) + "/p" }},
+	{"invalid UTF-8 run in a domain", func(n int) (string, string) { return "", "http://" + rep("a\xfe", n) + "/p" }},
+	{"replacement characters in the host", func(n int) (string, string) { return "", "sc://" + rep("\ufffd", n) + "/p" }},
+	{"invalid UTF-8 run in the credentials", func(n int) (string, string) { return "", "http://" + rep("\xff", n) + ":" + rep("\xc3", n/4) + "@h/" }},
+	{"invalid UTF-8 run in the query", func(n int) (string, string) { return "", "http://h/?" + rep("\xff=\xfe&", n) }},
+	{"invalid UTF-8 run in the fragment", func(n int) (string, string) { return "", "http://h/#" + rep("\xf0\x9f", n) }},
+	{"invalid UTF-8 run in the scheme-specific part", func(n int) (string, string) { return "", "sc:" + rep("\xff", n) }},
 	{"dots in the host", func(n int) (string, string) { return "", "http://a" + rep(".", n) + "b/" }},
 	{"long IDN label", func(n int) (string, string) { return "", "http://" + rep("é", n) + ".b/" }},
 	{"many IDN labels", func(n int) (string, string) { return "", "http://" + rep("é.", n) + "b/" }},
@@ -227,7 +234,7 @@ func init() {
 				c.cmpParse(d, defaultCfg, bp, in, allFields, true, "cost-family:"+f.name, i)
 			})
 		},
-		rule:    "44 repetition families (those of the property plus backslashes, encoded dot segments, deep relative resolution, invalid UTF-8, drive letters, tab/newline, IPv6/IPv4 digits) x n in {1Ki, 4Ki, 16Ki} (quick) up to 64Ki (thorough) x {default parser, GoogleSafeBrowsing, Semantic}; runtime.MemStats TotalAlloc and Mallocs around parse + every getter + String + SearchParams, minimum of 3 runs, GC disabled; after a warm-up at the largest size; violation when bytes or objects per input byte grow by more than 6x from the smallest to the largest size (quadratic growth: 16x in quick, 64x in thorough); distinct = (parser, family, n)",
+		rule:    "51 repetition families (those of the property plus backslashes, encoded dot segments, deep relative resolution, invalid UTF-8, drive letters, tab/newline, IPv6/IPv4 digits) x n in {1Ki, 4Ki, 16Ki} (quick) up to 64Ki (thorough) x {default parser, GoogleSafeBrowsing, Semantic}; runtime.MemStats TotalAlloc and Mallocs around parse + every getter + String + SearchParams, minimum of 3 runs, GC disabled; after a warm-up at the largest size; violation when bytes or objects per input byte grow by more than 6x from the smallest to the largest size (quadratic growth: 16x in quick, 64x in thorough); distinct = (parser, family, n)",
 		trusted: []string{"runtime.MemStats as the measure of allocation; wall-clock time is not measured"},
 	}
 }
